@@ -496,7 +496,7 @@ Error String::_op_vformat(ModifyOp op, const char* fmt, va_list ap) noexcept {
   va_list ap_copy;
   va_copy(ap_copy, ap);
 
-  if (remaining_capacity >= 128) {
+  if (op == ModifyOp::kAppend && remaining_capacity >= 128) {
     fmt_result = vsnprintf(data() + start_at, remaining_capacity + 1u, fmt, ap);
     output_size = size_t(fmt_result);
 
@@ -504,6 +504,9 @@ Error String::_op_vformat(ModifyOp op, const char* fmt, va_list ap) noexcept {
       _set_size(start_at + output_size);
       return Error::kOk;
     }
+
+    // The output didn't fit - restore the null terminator so the string stays valid if the allocation below fails.
+    data()[start_at] = '\0';
   }
   else {
     fmt_result = vsnprintf(buf, ASMJIT_ARRAY_SIZE(buf), fmt, ap);
